@@ -460,6 +460,58 @@ class Program:
     def _record(self, token, rec, meta):
         self.tokens.append(token); self.impl.append(rec); self.meta.append(meta)
 
+    # -- staged assembly: a joint built from the pieces of an already conditioned joint plus fresh distributions
+    def plan_stage(self):
+        rng = self.rng
+        seeds = rng.sample(self.vs, rng.randint(1, max(1, len(self.vs) - 1)))
+        S1, stack = set(), [v.name for v in seeds]
+        while stack:                                   # closed under parents: the first joint must be well-formed
+            n = stack.pop()
+            if n not in S1:
+                S1.add(n); stack += self.byname[n].params()
+        S2 = [v for v in self.order if v.name not in S1]
+        need = {q_ for v in S2 for q_ in v.params()}
+        cand = sorted(n for n in S1 if n not in need)    # fixed in stage 1: nothing of the second group may depend on it
+        if not S2 or not cand:
+            return None
+        A = rng.sample(cand, rng.randint(1, len(cand)))
+        groups = [A] if (len(A) < 2 or rng.random() < 0.5) else [A[:len(A) // 2], A[len(A) // 2:]]
+        return S1, groups
+
+    def do_stage(self, S1, groups, idx=lambda: 0):
+        """J1 = JointDistribution(*S1)(**A...) ; J2 = JointDistribution(*pieces of J1, *fresh densities of the rest).
+        Returns False if the program must stop."""
+        idx1 = [i for i, v in enumerate(self.order) if v.name in S1]
+        idx2 = [i for i, v in enumerate(self.order) if v.name not in S1]
+        all_dens, all_tok, all_order, all_vs = self.dens, self.dens_tokens, self.order, self.vs
+        self.dens = [all_dens[i] for i in idx1]; self.order = [all_order[i] for i in idx1]
+        self.dens_tokens = [all_tok[i] for i in idx1]
+        if not self.construct():
+            self.fails.append(("new:JointDistribution:raises", self.desc, "a joint distribution", self.impl[0], "well-formed joint refused by the constructor"))
+            return False
+        for g in groups:
+            if not self.call_cond([], [(n, idx()) for n in g], "keyword", "valid"):
+                return False
+        self.kept = []
+        kb = kind_of(self.cuqi, self.obj_)
+        if kb == "Posterior":
+            # a Posterior (no name of its own) is not used as a component: go on as an ordinary program on the first joint
+            self.vs = [v for v in all_vs if v.name in S1]
+            return True
+        pieces = list(self.obj_._densities) if kb in ("JointDistribution", "MultipleLikelihoodPosterior") else [self.obj_]
+        self.staged = len(self.tokens)
+        self.tok1, self.tok2 = self.dens_tokens, [all_tok[i] for i in idx2]
+        self.dens = pieces + [all_dens[i] for i in idx2]
+        self.order = self.order + [all_order[i] for i in idx2]
+        self.shape += "+staged"
+        self.desc["shape"] = self.shape
+        self.desc["staged"] = {"first_joint": sorted(S1), "fixed_there": [list(g) for g in groups], "piece_kinds": [kind_of(self.cuqi, t) for t in pieces]}
+        if not self.construct():
+            self.fails.append(("new:JointDistribution:staged:raises", dict(self.desc), "a joint distribution", self.impl[-1],
+                               "a joint assembled from the densities of a conditioned joint and fresh distributions is refused"))
+            return False
+        return True
+
     def construct(self):
         from cuqi.distribution import JointDistribution
         try:
@@ -617,11 +669,10 @@ class Program:
                     dens.append(f"{d.name}=" + ("L" if isinstance(g, Likelihood) else ("D" if isinstance(g, Distribution) else "E")))
                 names = [str(t) for t in obj.get_parameter_names()]
             rec = "q:" + (",".join(fixed) or ".") + "!" + (",".join(str(t) for t in dims) or "_") + "!" + (",".join(dens) or ".")
-            allv = sorted(v.name for v in self.vs if v in self.order or True)
-            present = sorted(v.name for v in self.order)
+            present = sorted(str(d.name) for d in obj._densities)   # (a staged joint holds fixed variables of the first joint inside constants)
             if sorted(fixed + names) != present:
                 self.fails.append((f"query:{kb}:partition", {**self.desc, "calls": list(self.tokens), "record": len(self.impl)},
-                                   present, sorted(fixed + names), "fixed variables and parameter names do not partition the variables of the joint"))
+                                   present, sorted(fixed + names), "fixed variables and parameter names do not partition the densities of the joint"))
         except Exception as e:  # noqa
             rec = "err:" + type(e).__name__
         self._record("Q", rec, {"op": "query", "kind": kb, "mode": "-", "what": "valid"})
@@ -802,13 +853,18 @@ class Program:
             self.desc["ill_formed"] = True
             self.construct()
             return
-        if not self.construct():
-            self.fails.append(("new:JointDistribution:raises", self.desc, "a joint distribution", self.impl[0],
-                               "well-formed joint refused by the constructor"))
-            return
-        if rng.random() < 0.15:
-            self.run_problem()
-            return
+        plan = self.plan_stage() if (rng.random() < 0.2 and not self.pre and len(self.vs) >= 2) else None
+        if plan is not None:
+            if not self.do_stage(plan[0], plan[1], idx=lambda: 0 if rng.random() < 0.8 else 1):
+                return
+        else:
+            if not self.construct():
+                self.fails.append(("new:JointDistribution:raises", self.desc, "a joint distribution", self.impl[0],
+                                   "well-formed joint refused by the constructor"))
+                return
+            if rng.random() < 0.15:
+                self.run_problem()
+                return
         stacked_done = False
         steps = rng.randint(2, 7)
         for _ in range(steps):
@@ -1015,6 +1071,9 @@ class Program:
                                    "an object obtained earlier no longer evaluates to its joint log-density after later conditioning calls on it"))
 
     def line(self):
+        st = getattr(self, "staged", None)
+        if st is not None:
+            return ("prog2 " + " ".join(self.tok1) + " -- " + " ".join(self.tokens[:st]) + " ++ " + " ".join(self.tok2) + " -- " + " ".join(self.tokens[st:]))
         return "prog " + " ".join(self.dens_tokens) + " -- " + " ".join(self.tokens)
 
 
@@ -1166,6 +1225,23 @@ def corpus(cuqi):
     if pa.construct():
         s9(pa)
     out.append(pa)
+    # --- staged assembly: x | z conditioned on z in a first joint (a Distribution carrying log p(z)), used as the prior of a second joint
+    def s10(p):
+        if not p.do_stage({"x", "z"}, [["z"]]):
+            return
+        A0 = {"y": 0, "x": 0, "s": 0}
+        p.call_logd([], [(n, 0) for n in ["y", "s", "x"]], "keyword", "valid", A0, reuse=False)
+        p.call_cond([], [("s", 0)], "keyword", "valid")
+        p.call_cond([], [("y", 0)], "keyword", "valid")
+        p.call_logd([("x", 0)], [], "positional", "valid", {"x": 0}, reuse=False)
+        p.call_logd([], [("x", 1)], "keyword", "valid", {"x": 1}, reuse=False)
+        p.call_cond([("x", 1)], [], "positional", "valid")
+        p.call_logd([], [], "keyword", "valid", {})
+    ps = Program(cuqi, random.Random("C01-corpus-10"), False, "corpus-10")
+    ps.no_vary = True
+    ps.setup(docstring_graph())
+    s10(ps)
+    out.append(ps)
     pm = Program(cuqi, random.Random("C01-corpus-7"), False, "corpus-7")
     pm.no_vary = True
     pm.setup(multi_graph())
